@@ -41,6 +41,99 @@ fn root() -> PathBuf {
     }
 }
 
+use dltverif::props::fuzz_replay;
+
+/// `dltverif gen-corpus <bytes|fibex|args> <dir>`: small generated seed inputs for a libFuzzer target
+fn gen_corpus(target: &str, dir: &str, seed: u64) {
+    use dltverif::gen::{bytes as gb, fibex as fx};
+    use dltverif::runner::Sampler;
+    std::fs::create_dir_all(dir).expect("corpus dir");
+    let mut s = Sampler::new(seed ^ 0xC0_4B05);
+    let mut n = 0;
+    let mut put = |bytes: Vec<u8>| {
+        std::fs::write(format!("{}/gen-{:04}", dir, n), bytes).expect("write corpus file");
+        n += 1;
+    };
+    match target {
+        "bytes" => {
+            for i in 0..400u32 {
+                let storage = i % 2 == 1;
+                let buf = s.sample(&gb::hostile_small(storage));
+                if buf.len() <= 4000 {
+                    let mut v = vec![(storage as u8) | (((i / 2) % 8) as u8) << 1];
+                    v.extend(buf);
+                    put(v);
+                }
+            }
+        }
+        "fibex" => {
+            for i in 0..2u8 {
+                if let Some(d) = props::c12::sample(i) {
+                    put(d);
+                }
+            }
+            for _ in 0..60 {
+                let m = s.sample(&fx::model());
+                let l = s.sample(&fx::layout());
+                for d in fx::render(&m, &l) {
+                    if d.len() < 6000 {
+                        put(d.into_bytes());
+                    }
+                }
+            }
+        }
+        "args" => {
+            for i in 0..200u32 {
+                let k = (i % 9) as u8;
+                let mut v = vec![(i as u8 & 1) | k << 1];
+                for j in 0..k {
+                    v.push(((i / 3) as u8).wrapping_mul(7).wrapping_add(j * 3));
+                }
+                v.extend(s.sample(&proptest::collection::vec(proptest::prelude::any::<u8>(), 0..40)));
+                put(v);
+            }
+        }
+        _ => usage(),
+    }
+    println!("{} corpus files written to {}", n, dir);
+}
+
+/// `dltverif fuzz-triage <Cxx> <target> <artifact>`: re-judge a libFuzzer artifact in-process with the
+/// property's oracle, minimise it under that oracle and save it as a replay file
+fn fuzz_triage(id: &str, target: &str, file: &str) -> i32 {
+    let data = match std::fs::read(file) {
+        Ok(d) => d,
+        Err(e) => {
+            eprintln!("cannot read {}: {}", file, e);
+            return 2;
+        }
+    };
+    let section = format!("fuzz-{}", target);
+    let judge = |d: &[u8]| -> Option<dltverif::runner::Violation> {
+        let case = serde_json::json!({"data": dltverif::util::hex(d)});
+        match fuzz_replay(id, &section, &case) {
+            Some(Err(v)) => Some(v),
+            _ => None,
+        }
+    };
+    let Some(first) = judge(&data) else {
+        println!("NOT-REPRODUCED property={} target={} artifact={} (the in-process oracle accepts this input)", id, target, file);
+        return 3;
+    };
+    let known = dltverif::runner::load_known(&root());
+    if known.iter().any(|k| k.property == id && first.sig.contains(&k.signature)) {
+        println!("KNOWN-FINDING: property={} signature={} (rediscovered by the {} fuzz target)", id, first.sig, target);
+        return 0;
+    }
+    let min = if target == "fibex" { data.clone() } else { dltverif::oracle::minimise(&data, &|d| judge(d).map(|v| v.sig)) };
+    let v = judge(&min).unwrap_or(first);
+    let run = Run::new(&root(), id, Tier::Thorough, 0, "exploration");
+    let path = run.report_violation(&section, serde_json::json!({"data": dltverif::util::hex(&min)}), &v);
+    println!("VIOLATION property={} replay={}", id, path);
+    println!("  {}", v.msg.lines().next().unwrap_or(""));
+    1
+}
+
 fn usage() -> ! {
     eprintln!("usage: dltverif run <Cxx> <quick|thorough> | dltverif replay <Cxx> <file>");
     std::process::exit(2)
@@ -70,6 +163,14 @@ fn main() {
             std::process::exit(run.finish());
         }
         Some("eval-server") => dltverif::evalserver::serve(),
+        Some("gen-corpus") => {
+            let (Some(t), Some(d)) = (args.get(2), args.get(3)) else { usage() };
+            gen_corpus(t, d, seed);
+        }
+        Some("fuzz-triage") => {
+            let (Some(id), Some(t), Some(f)) = (args.get(2), args.get(3), args.get(4)) else { usage() };
+            std::process::exit(fuzz_triage(id, t, f));
+        }
         Some("replay") => {
             let (Some(id), Some(file)) = (args.get(2), args.get(3)) else { usage() };
             let Some(p) = table().into_iter().find(|p| p.id == id) else {
@@ -85,7 +186,8 @@ fn main() {
                 std::process::exit(2)
             });
             let section = body["section"].as_str().unwrap_or("");
-            match (p.replay)(section, &body["case"]) {
+            let result = if section.starts_with("fuzz-") { fuzz_replay(p.id, section, &body["case"]) } else { (p.replay)(section, &body["case"]) };
+            match result {
                 Some(Ok(pass)) => {
                     println!("REPLAY-OK property={} classes={:?}", p.id, pass.classes);
                     std::process::exit(0)
